@@ -198,6 +198,22 @@ func gen(g *vh.Gen) {
 		}
 		g.Emit("multi", g.Pick("mem", "file"), strings.Join(rc, ","), f)
 	}
+	// several transactions on one connection, all to one mailbox, the later bodies not longer than the earlier ones;
+	// EVERY message is read back after the LAST one was stored (a store that keeps a reference into a buffer it
+	// reuses would hand out a later message's bytes for an earlier one); memory store with and without its size
+	// limit (set far above the total), file store
+	for i := 0; i < g.N(24, 600); i++ {
+		ls := genLines(g, 60)
+		h := make([]string, len(ls))
+		for j, l := range ls {
+			h[j] = vh.HS(l)
+		}
+		f := "-"
+		if len(h) > 0 {
+			f = strings.Join(h, ",")
+		}
+		g.Emit("seq", g.Pick("mem", "mem::8192", "mem::8192", "mem:5:8192", "file", "file:5"), strconv.Itoa(2+g.Intn(3)), f)
+	}
 	// raw wire: encodings a lenient client may produce (bare LF line ends, LF-only terminator,
 	// missing final newline before the terminator line is impossible on the wire; stray CRs)
 	for i := 0; i < g.N(150, 3000); i++ {
@@ -320,6 +336,8 @@ func exec(kind string, in []string) []string {
 		wire = vh.U(in[1])
 	case "multi":
 		return execMulti(in)
+	case "seq":
+		return execSeq(in)
 	case "asmsrc":
 		return execAsmSrc(in)
 	default:
@@ -451,6 +469,100 @@ func execMulti(in []string) []string {
 			copies = append(copies, strings.Join([]string{fmt.Sprintf("%s.%d", mb, i+1), vh.H(smtpd.MaskTimestamp(src, mb)),
 				strconv.FormatInt(m.Size(), 10), same(restSrc, src), same(uiSrc, src), same(retr, norm), restSize, popSize}, ":"))
 		}
+	}
+	cs := "-"
+	if len(copies) > 0 {
+		cs = strings.Join(copies, ",")
+	}
+	return []string{strings.Join(smtpd.ReplyTokens(out), ","), cs, hdr + ":" + status}
+}
+
+// SeqLines: the body of transaction t (1-based) of a seq case: a header naming t, then the lines without the last t-1.
+func SeqLines(ls []string, t int) []string {
+	n := len(ls) - (t - 1)
+	if n < 0 {
+		n = 0
+	}
+	return append([]string{fmt.Sprintf("X-Seq: %d", t)}, ls[:n]...)
+}
+
+// execSeq: seq <store[:cap[:maxkb]]> <k> <lines> => <replies> <copies> <hdr flags>:<status>; k transactions on one
+// connection to mailbox box; afterwards every stored message is read through every interface (token format of multi).
+func execSeq(in []string) []string {
+	var ls []string
+	if in[2] != "-" {
+		for _, h := range strings.Split(in[2], ",") {
+			ls = append(ls, vh.US(h))
+		}
+	}
+	k, _ := strconv.Atoi(in[1])
+	setupWeb()
+	sf := strings.Split(in[0], ":")
+	sc := config.Storage{}
+	if len(sf) > 2 && sf[2] != "" {
+		sc.Params = map[string]string{"maxkb": sf[2]}
+	}
+	store := sf[0]
+	if len(sf) > 1 && sf[1] != "" {
+		store += ":" + sf[1]
+	}
+	c := smtpd.Cfg{Naming: "local", MaxRcpt: 10, MaxBytes: 50000000, DA: true, DS: true, Store: store}
+	env, err := smtpd.NewEnv(c, "", sc)
+	if err != nil {
+		return []string{"SETUPERR", vh.HS(err.Error())}
+	}
+	defer env.Close()
+	cur.Manager = env.Manager
+	stream := []byte("HELO client.example\r\n")
+	for t := 1; t <= k; t++ {
+		stream = append(stream, []byte("MAIL FROM:<sender@x.org>\r\nRCPT TO:<box@y.org>\r\nDATA\r\n")...)
+		stream = append(stream, []byte(smtpd.StuffLines(SeqLines(ls, t)))...)
+	}
+	stream = append(stream, []byte("QUIT\r\n")...)
+	out, err := env.Session(stream)
+	status := "ok"
+	if err != nil {
+		status = "err:" + vh.HS(err.Error())
+	}
+	hdr := ""
+	for _, call := range env.Manager.Calls {
+		hdr += vh.B(call.HdrOK)
+	}
+	if hdr == "" {
+		hdr = "nocall"
+	}
+	var copies []string
+	mb := "box"
+	ms, err := env.Store.GetMessages(mb)
+	if err != nil {
+		status = "err:list"
+	}
+	_, listJSON := httpGet("http://localhost/api/v1/mailbox/" + mb)
+	var hdrs []map[string]interface{}
+	json.Unmarshal(listJSON, &hdrs)
+	for i, m := range ms {
+		r, err := m.Source()
+		if err != nil {
+			copies = append(copies, fmt.Sprintf("%s.%d:NOSRC", mb, i+1))
+			continue
+		}
+		src, _ := io.ReadAll(r)
+		r.Close()
+		_, restSrc := httpGet("http://localhost/api/v1/mailbox/" + mb + "/" + m.ID() + "/source")
+		_, uiSrc := httpGet("http://localhost/serve/mailbox/" + mb + "/" + m.ID() + "/source")
+		restSize := "X"
+		if i < len(hdrs) {
+			if f, ok := hdrs[i]["size"].(float64); ok {
+				restSize = strconv.FormatInt(int64(f), 10)
+			}
+		}
+		retr, popSize, perr := pop3FetchN(env, mb, i+1)
+		if perr != nil {
+			status = "pop3:" + vh.HS(perr.Error())
+		}
+		norm := bytes.ReplaceAll(src, []byte("\r\n"), []byte("\n"))
+		copies = append(copies, strings.Join([]string{fmt.Sprintf("%s.%d", mb, i+1), vh.H(smtpd.MaskTimestamp(src, mb)),
+			strconv.FormatInt(m.Size(), 10), same(restSrc, src), same(uiSrc, src), same(retr, norm), restSize, popSize}, ":"))
 	}
 	cs := "-"
 	if len(copies) > 0 {
